@@ -5,8 +5,8 @@ import os, sys, json, time, hashlib, collections, itertools, multiprocessing, tr
 from mc import boot
 
 VERIF = boot.VERIF
-EVIDENCE_DIR = os.path.join(VERIF, 'evidence')
-REPLAY_DIR = os.path.join(VERIF, 'replays')
+EVIDENCE_DIR = os.environ.get('VERIF_EVIDENCE_DIR') or os.path.join(VERIF, 'evidence')
+REPLAY_DIR = os.environ.get('VERIF_REPLAY_DIR') or os.path.join(VERIF, 'replays')
 KNOWN_FILE = os.path.join(VERIF, 'known_findings.json')
 NPROC = int(os.environ.get('VERIF_PROCS', '16'))
 MAX_PER_KEY = 3
